@@ -15,6 +15,9 @@ CLAIMED = {
  "C16": dict(cat="proof", tech="contracts + AST->VC; abstract-rounding (fl) arithmetic for the simple ADC per bit resolution; inductive loop invariants with recursive spec functions for the SAR converters, z3",
    text="apply_simple_adc is executed symbolically at an arbitrary pixel for each of the 61 allowed resolutions with every float operation rounded by an abstract IEEE rounding function: range, zero at/below vmin, full scale at/above vmax, monotonicity, result dtype wide enough. apply_sar_adc and apply_sar_adc_with_noise (zero noise) are proved for a SYMBOLIC number of bits by loop invariants against a recursive specification of successive approximation: functional equality with the spec (hence the noisy variant with zero noise equals the plain one), range and monotonicity.",
    note="Trusted: fl abstraction (no overflow/underflow/NaN), real arithmetic for SAR, 2**n recurrence facts, np.random.normal(scale=0)==loc, numpy pointwise contracts. Known finding: simple ADC at 54..64 bits (binary64 cannot hold 2^b-1).", ref="6 (C16)"),
+ "C20": dict(cat="proof", tech="contracts + AST->VC symbolic execution (LIA over symbolic shapes/offsets, pointwise arrays), callee contract for the alignment helper; def-use and call-graph obligations for the loaders, z3",
+   text="fit_into_array is executed symbolically for arbitrary input/output shapes, offsets and the five alignment keywords: an accepted placement satisfies placed(out, array, p) at an arbitrary output pixel (input pixel the offset puts there, zero elsewhere), non-overlapping or too-small inputs are exactly the rejected ones; _set_relative_position is proved against the statement's alignment definitions and used through its contract. The loading models pass (position_y, position_x), align and the detector shape (def-use normalised call-argument obligations). A memoised loader that reads the file system must carry a file-signature key component (cache.fresh). Delimiter list and suffix table of load_image are AST obligations.",
+   note="Trusted: np.intersect1d/np.array(range) contracts on integer ranges; file decoding by numpy/astropy/PIL is outside (not claimed); a file's (mtime_ns, size) changes when it is rewritten.", ref="6 (C20)"),
 }
 PENDING_REASON = "check not built yet in this session (planned in DESIGN.md section 6); not claimed until its obligations are generated from the real code"
 def main():
